@@ -37,12 +37,22 @@ TRUSTED = [
     "(exact on dyadic inputs), not a proof about the C++ text",
     "exp, log, sqrt are value oracles: theorems hold for every oracle; IEEE rounding is not modelled except "
     "K = (int)(3*perplexity) (PrimFloat, vm_compute)",
-    "perplexity loop: tied through a Python transliteration of Tsne_Model.perp_loop in binary64 (the Q model "
-    "with float oracles is too slow to extract and run), tolerance 2e-4 per entry; spec (entropy, Gaussian shape) on every row",
+    "perplexity loop: tied (1) through the EXTRACTED search Tsne_PerpRed_Model.perp_row_r (proved to return what "
+    "Tsne_Model.perp_loop returns, perplexity_reduced_model_equiv) with binary64 exp/log of the OCaml runtime as the "
+    "oracles, on selected rows of small dyadic cases, 1e-9 per entry, and (2) on every row through a Python "
+    "transliteration in binary64, 2e-4 per entry (any equally valid search path passes); spec (entropy, Gaussian "
+    "shape) on every row",
+    "OpenMP: the models are serial programs; the check scans tsne.hpp / quadtree.hpp / vptree.hpp / methods/tsne.hpp for "
+    "`#pragma omp`, _Pragma(\"omp\"), std::thread/async/execution::par (none today: the assumption under which "
+    "bh_gradient_limit and the other theorems speak about this code) and runs computeGradient, the K-NN perplexity "
+    "overload and symmetrizeMatrix at N ~ 1200-1500 under 1, 8 and 16 threads; libgomp, the scheduler and the C++ memory "
+    "model are not modelled",
     "std::nth_element, std::priority_queue, uniform_random(): oracles (contract nth_ok / any maximal element / "
     "any pivot); the real tree is dumped and checked against vp_inv_b on every VP case",
     "Eigen product in computeSquaredEuclideanDistance: exact on dyadic inputs (compared exactly)",
-    "quadtree (computeGradient) is C18's model; here only BH-vs-exact numerics (a test, not a theorem)",
+    "quadtree (computeGradient): C18's model under Tsne_BH_Model.bh_gradient, EXECUTED (extracted) against the real "
+    "computeGradient on small dyadic maps (1e-9: centre of mass and 1/(1+D) round in binary64); larger maps: "
+    "BH-vs-closed-form numerics and the quadtree's public interface queried point by point (tests, not theorems)",
     "extraction (ExtrOcamlBasic only) + OCaml 4.13.1 + coq/extract/c17_driver.ml (parsing/printing)",
     "harness/c17.cpp; g++ ASan/UBSan/_GLIBCXX_ASSERTIONS as the memory-safety observer",
     "max-normalisation X /= X.maxCoeff() and the 12x exaggeration / momentum schedule inside run() are not "
@@ -374,7 +384,87 @@ def gen_cases(ctx, rng, scale):
             P = [[fl(W[a][b] / tot) for b in range(N)] for a in range(N)]
             Y = [[fl(rng.gauss(0, 1)) for _ in range(D)] for _ in range(N)]
             add({"kind": "EE", "P": P, "Y": Y}, "EE/D%d" % D)
+    # ---- wave 2 ----------------------------------------------------------------------------------------
+    # scale sweep: run() centres and divides by the largest entry, so every similarity stage is scale-free; the
+    # member functions are driven with the same dyadic data multiplied by 2^s (exact), so that an absolute
+    # threshold anywhere in them (a tolerance, an epsilon, DBL_MIN used as a cut-off) shows
+    SC = [-60, -31, 30, 60]
+    for _ in range(2 * scale):
+        s_ = rng.choice(SC)
+        N, D = rng.choice([3, 5, 8]), rng.choice([1, 2, 3])
+        add({"kind": "DD", "X": qs(scaled(gen_points(rng, N, D, "dyadic"), s_)), "scale": s_}, "DD/scaled")
+    for _ in range(2 * scale):
+        s_ = rng.choice(SC)
+        N, D = rng.choice([2, 4, 8]), rng.choice([1, 2])
+        add({"kind": "ZM", "X": qs(scaled(gen_points(rng, N, D, "dyadic"), s_)), "scale": s_}, "ZM/scaled")
+    for _ in range(2 * scale):
+        s_ = rng.choice(SC)
+        D = rng.choice([2, 3])
+        pts = distinct_points(rng, rng.choice([13, 22, 30]), D, rng.choice(["lattice", "dyadic"]))
+        N = len(pts)
+        perp = rng.choice([2.0, 3.5, (N - 1) / 3.0])
+        add({"kind": "PK", "X": qs(scaled(pts, s_)), "perp": fl(perp), "K": int(3 * perp), "scale": s_}, "PK/scaled")
+    # dense conditional similarities on dyadic data (squared distances exact), some scaled; `model`: rows are also
+    # computed by the EXTRACTED perplexity search (Tsne_PerpRed_Model.perp_row_r, binary64 exp/log oracles)
+    for j in range(3 * scale):
+        N, D = rng.choice([5, 6, 8, 12]), rng.choice([1, 2])
+        pts = distinct_points(rng, N, D, "dyadic")
+        N = len(pts)
+        pmax = (N - 1) / 3.0
+        perp = rng.choice([pmax, 1.0 + 0.5 * (pmax - 1.0), 1.0 + rng.random() * (pmax - 1.0)])
+        s_ = rng.choice([0, 0, -30, 30]) if j % 3 else rng.choice(SC)
+        c = {"kind": "PD", "X": [[fl(x) for x in p] for p in scaled(pts, s_)], "perp": fl(perp), "scale": s_, "dyadic": True}
+        if abs(s_) <= 30:
+            c["model_rows"] = sorted({0, N // 2, N - 1})
+        add(c, "PD/dyadic" + ("" if s_ == 0 else "-scaled"))
+    for j in range(3 * scale):
+        kind = rng.choice(["lattice", "dyadic", "line1"])
+        D = 1 if kind == "line1" else 2
+        pts = distinct_points(rng, rng.choice([8, 10, 13]), D, kind)
+        N = len(pts)
+        pmax = (N - 1) / 3.0
+        perp = rng.choice([pmax, 2.0, 1.0 + rng.random() * (pmax - 1.0)])
+        s_ = rng.choice([0, 0, -30, 30])
+        add({"kind": "PK", "X": qs(scaled(pts, s_)), "perp": fl(perp), "K": int(3 * perp), "scale": s_,
+             "model_rows": sorted({0, N // 2, N - 1})}, "PK/small-model")
+    # GM: computeGradient against the EXTRACTED model (Tsne_BH_Model.bh_gradient on c18's tsne_tree) on small
+    # dyadic maps, theta in {0, 1/8, 1/2, 1}
+    for j in range(4 * scale):
+        N = rng.choice([2, 3, 4, 6, 8, 12, 16])
+        if j % 4 == 3 and N >= 4:
+            base = distinct_points(rng, max(2, N // 2), 2, "dyadic")
+            Y = [list(base[i]) if i < len(base) else list(rng.choice(base)) for i in range(N)]
+            tag = "GM/coincident"
+        else:
+            Y = distinct_points(rng, N, 2, rng.choice(["lattice", "dyadic"]))
+            tag = "GM/distinct"
+        N = len(Y)
+        edges = {}
+        for a in range(N):
+            for b in rng.sample(range(N), min(N - 1, 3)):
+                if a != b:
+                    edges[(min(a, b), max(a, b))] = rng.randint(1, 16)
+        tot = 1
+        while tot < 2 * sum(edges.values()):
+            tot *= 2
+        rows = [[] for _ in range(N)]
+        for (a, b), v in sorted(edges.items()):
+            rows[a].append((b, Fraction(v, tot)))
+            rows[b].append((a, Fraction(v, tot)))
+        row_P, col_P, val_P = [0], [], []
+        for r in rows:
+            for cidx, v in r:
+                col_P.append(cidx)
+                val_P.append(fr(v))
+            row_P.append(len(col_P))
+        add({"kind": "GM", "N": N, "row": row_P, "col": col_P, "val": val_P, "Y": qs(Y),
+             "theta": fr(rng.choice([Fraction(0), Fraction(1, 8), Fraction(1, 2), Fraction(1)]))}, tag)
     return cases, hist
+
+
+def scaled(X, s):
+    f = Fraction(2) ** s
+    return [[Fraction(x) * f for x in p] for p in X]
 
 
 def gen_api_cases(ctx, rng, quick):
@@ -394,7 +484,15 @@ def gen_api_cases(ctx, rng, quick):
         pts, lab = gen_clusters(rng, N, D, nc, 8.0)
         cases.append({"kind": "API", "X": [[fl(x) for x in p] for p in pts], "labels": lab, "d": d,
                       "perp": fl(perp), "theta": fl(theta), "seed": rng.randint(1, 10 ** 6)})
-    return cases
+    # scale sweep through the public path: the same request with the features multiplied by 2^s.  Centring and the
+    # division by the largest entry are exact under a power of two, so the normalised data, hence the whole run
+    # (same seed), must come out bit for bit the same
+    twins = []
+    for (j, s_) in ([(2, 60), (3, -60)] if quick else [(2, 60), (3, -60), (4, 30), (5, -31), (6, -60), (7, 60)]):
+        if j < len(cases):
+            b = cases[j]
+            twins.append(dict(b, X=[[fl(hx(x) * 2.0 ** s_) for x in p] for p in b["X"]], twin_of=j, scale=s_))
+    return cases + twins
 
 
 # ----------------------------------------------------------------------------- case -> harness / model lines
@@ -428,6 +526,10 @@ def impl_line(i, c):
     if k == "GB":
         return "GB %d %d %s %d %s %s %s %s" % (i, c["N"], c["theta"], len(c["col"]), " ".join(map(str, c["row"])),
                                                " ".join(map(str, c["col"])), " ".join(c["val"]), " ".join(flat(c["Y"])))
+    if k == "GM":
+        return "GB %d %d %s %d %s %s %s %s" % (i, c["N"], fl(Fraction(c["theta"])), len(c["col"]), " ".join(map(str, c["row"])),
+                                               " ".join(map(str, c["col"])), " ".join(fl(Fraction(v)) for v in c["val"]),
+                                               " ".join(fl(Fraction(x)) for x in flat(c["Y"])))
     if k == "API":
         X = c["X"]
         return "API %d %d %d %d %s %s %d %s" % (i, len(X), len(X[0]), c["d"], c["perp"], c["theta"], c["seed"],
@@ -446,7 +548,36 @@ def model_line(i, c):
     if k == "GE":
         P, Y = c["P"], c["Y"]
         return "GE %d %d %d %s %s" % (i, len(Y), len(Y[0]), " ".join(flat(P)), " ".join(flat(Y)))
+    if k == "GM":
+        return "GM %d %d %s %s 80 %s %d %s %s %s" % (i, c["N"], c["theta"], fr(Fraction(1e-5)), " ".join(flat(c["Y"])),
+                                                     len(c["col"]), " ".join(map(str, c["row"])),
+                                                     " ".join(map(str, c["col"])), " ".join(c["val"]))
     raise ValueError(k)
+
+
+def pr_line(self_idx, perp, dd):
+    """the extracted perplexity search on one row: tol = the double 1e-5, DBL_MIN, exact rationals."""
+    return "PR 0 %d %s %s %s %d %s" % (-1 if self_idx is None else self_idx, fr(Fraction(perp)), fr(Fraction(1e-5)),
+                                       fr(Fraction(DBL_MIN)), len(dd), " ".join(fr(x) for x in dd))
+
+
+def pr_handler(what, n, row, skip):
+    """compare the implementation's row with the extracted model's; rows on which the model's search does not end
+    with found (target entropy unattainable in binary64) are left to the spec checks."""
+    def handler(out):
+        if not out or out[0] == "NONE" or out[0] != "1":
+            return None
+        mrow = [hx(t) for t in out[2:]]
+        if len(mrow) != len(row):
+            return ("mismatch", "%s row %d: extracted perplexity search returns %d entries for %d" % (what, n, len(mrow), len(row)))
+        for m in range(len(row)):
+            if m == skip:
+                continue
+            if row[m] is None or abs(mrow[m] - row[m]) > 1e-9:
+                return ("mismatch", "%s row %d entry %d: implementation %r, extracted perplexity search (beta = %r) %r" % (
+                    what, n, m, row[m], hx(out[1]), mrow[m]))
+        return None
+    return handler
 
 
 # ----------------------------------------------------------------------------- Python mirrors (tolerance)
@@ -575,10 +706,13 @@ def eval_cases(ctx, exe, mexe, cases, stats, spec_only=False):
     (model vs implementation).  Returns the number of evaluations."""
     extra_evals = 0
     for c in cases:
-        if c["kind"] == "TG":
-            extra_evals += eval_tg(ctx, exe, c, stats)
-        elif c["kind"] == "TP":
-            extra_evals += eval_tp(ctx, exe, c, stats)
+        if c["kind"] in ("TG", "TP"):
+            try:
+                extra_evals += (eval_tg if c["kind"] == "TG" else eval_tp)(ctx, exe, c, stats)
+            except (ValueError, IndexError, TypeError, KeyError, ZeroDivisionError, OverflowError, StopIteration) as ex:
+                extra_evals += 1
+                ctx.violation(c, "output of the implementation on a %d-sample %s case cannot be parsed / is not a number: %r" % (
+                    c.get("N", len(c.get("X", []))), "computeGradient" if c["kind"] == "TG" else "K-NN similarities", ex))
     cases = [c for c in cases if c["kind"] not in ("TG", "TP")]
     if not cases:
         return extra_evals
@@ -592,7 +726,7 @@ def eval_cases(ctx, exe, mexe, cases, stats, spec_only=False):
             runs.append((ci, c))
     lines = [(i, impl_line(i, c)) for i, (_, c) in enumerate(runs)]
     res = run_impl(ctx, exe, lines, timeout=900)
-    mlines = [(i, model_line(i, c)) for i, (_, c) in enumerate(runs) if c["kind"] in ("DD", "ZM", "SY", "GE")]
+    mlines = [(i, model_line(i, c)) for i, (_, c) in enumerate(runs) if c["kind"] in ("DD", "ZM", "SY", "GE", "GM")]
     mres = run_model(ctx, mexe, mlines) if mlines else {}
     post = []          # second round model queries that need the implementation's output
     gb_err = {}
@@ -616,6 +750,23 @@ def eval_cases(ctx, exe, mexe, cases, stats, spec_only=False):
                 ctx.violation(c, why, signature=(verdict[2] if len(verdict) > 2 else None))
             else:
                 ctx.mismatch(c, why)
+    # scale twins of whole runs: bit-identical embeddings expected
+    at = {ci: i for i, (ci, c) in enumerate(runs)}
+    for i, (ci, c) in enumerate(runs):
+        if c.get("kind") == "API" and c.get("twin_of") is not None and c["twin_of"] in at:
+            a, b = res[i], res[at[c["twin_of"]]]
+            if a[0] == "R" and b[0] == "R" and a[1] and b[1] and a[1][0] == "OK" and b[1][0] == "OK":
+                ya, yb = split_bar(a[1][3:])[0], split_bar(b[1][3:])[0]
+                stats["twins"] = stats.get("twins", 0) + 1
+                if ya != yb:
+                    j = next((k for k in range(min(len(ya), len(yb))) if ya[k] != yb[k]), 0)
+                    # not a verdict: the scaled run is checked against the spec on its own (centred, clusters, logged KL
+                    # vs the prescribed P); a bitwise difference only says that something depends on the absolute scale
+                    stats["twins_differ"] = stats.get("twins_differ", 0) + 1
+                    ctx.note("t-SNE of the features multiplied by 2^%d (same seed) differs from the run on the original "
+                             "features: coordinate %d is %r instead of %r (centring and the division by the largest entry are "
+                             "exact under a power of two: something downstream depends on the absolute scale)" % (
+                                 c.get("scale", 0), j, hx(ya[j]) if j < len(ya) else None, hx(yb[j]) if j < len(yb) else None))
     # Barnes-Hut convergence: per original case the three errors
     for ci, errs in gb_err.items():
         c = cases[ci]
@@ -766,6 +917,9 @@ def check_one(ctx, c, payload, mout, post, i, gb_err, ci):
                     if abs(mrow[m] - row[m]) > ROW_TOL:
                         return ("mismatch", "dense row %d entry %d: implementation %r, transliterated model %r" % (
                             n, m, row[m], mrow[m]))
+            if n in c.get("model_rows", ()):
+                XF = [[Fraction(v) for v in p] for p in X]
+                post.append((pr_line(n, perp, [sqd(XF[n], XF[m]) for m in range(N)]), pr_handler("dense", n, row, None), c))
         return None
     if k == "GE":
         P, Y = unq(c["P"]), unq(c["Y"])
@@ -823,6 +977,35 @@ def check_one(ctx, c, payload, mout, post, i, gb_err, ci):
         scale = max(abs(v) for r in ref for v in r) or 1e-300
         err = max(abs(got[n * 2 + d] - ref[n][d]) for n in range(N) for d in range(2)) / scale
         gb_err.setdefault(ci, {})[hx(c["theta"])] = err
+        return None
+    if k == "GM":
+        N = c["N"]
+        Y = [[float(Fraction(x)) for x in p] for p in c["Y"]]
+        val = [float(Fraction(v)) for v in c["val"]]
+        theta = float(Fraction(c["theta"]))
+        got = floats(payload)
+        if len(got) != 2 * N or any(v is None or math.isnan(v) or math.isinf(v) for v in got):
+            return ("violation", "computeGradient returned %d entries / non-finite values" % len(got))
+        distinct = len(set(tuple(p) for p in c["Y"])) == N
+        ref = closed_form_grad(N, c["row"], c["col"], val, Y)
+        scale = max(abs(v) for r in ref for v in r) or 1e-300
+        if distinct and theta == 0.0:
+            # theta = 0: nothing is summarised, the quadtree sums ARE the closed form (theta > 0 on a handful of points
+            # is as coarse as one likes: left to the model comparison below and to the GB / TG streams)
+            err = max(abs(got[n * 2 + d] - ref[n][d]) for n in range(N) for d in range(2)) / scale
+            if err > 1e-9:
+                return ("violation", "Barnes-Hut gradient at theta = %g on a %d-point dyadic map is %.3g away (relative) from "
+                                     "the closed form edge forces - non-edge forces / sum_Q" % (theta, N, err))
+        if not mout or mout[0] != "OK":
+            return ("mismatch", "computeGradient model (bh_gradient on tsne_tree) reports %s" % " ".join(mout or ["nothing"]))
+        model = [hx(t) for t in mout[1:]]
+        if len(model) != 2 * N:
+            return ("mismatch", "computeGradient model returns %d entries" % len(model))
+        mscale = max([abs(v) for v in model] + [1e-300])
+        for j in range(2 * N):
+            if abs(got[j] - model[j]) > 1e-9 * mscale:
+                return ("mismatch", "computeGradient (theta = %g, N = %d): dC[%d,%d] = %.12g, extracted model "
+                                    "(Tsne_BH_Model.bh_gradient on c18's quadtree) %.12g" % (theta, N, j // 2, j % 2, got[j], model[j]))
         return None
     if k == "API":
         return check_api(ctx, c, payload)
@@ -954,6 +1137,13 @@ def check_pk(ctx, c, payload, post):
                 if abs(mrow[m] - vals[m]) > ROW_TOL:
                     return ("mismatch", "K-NN row %d entry %d: implementation %r, transliterated model %r" % (
                         n, m, vals[m], mrow[m]))
+        if n in c.get("model_rows", ()):
+            # the number the C++ feeds the kernel: distances[m] * distances[m] with distances[m] = sqrt(exact sum)
+            ddm = []
+            for m in cols:
+                dv = math.sqrt(float(Fraction(sq[n][m], L * L)))
+                ddm.append(Fraction(dv * dv))
+            post.append((pr_line(None, perp, ddm), pr_handler("K-NN", n, vals, None), c))
     line = "KN 0 %d %d %s %s" % (N, K, " ".join(str(v) for r in sq for v in r),
                                  " ".join("| " + " ".join(str(a) for a in col[n * K:(n + 1) * K]) for n in range(N)))
 
@@ -1511,14 +1701,17 @@ def thread_search(ctx, exe, rng, found, stats):
     Ns += [300, 1500, 3000]
     Ns = sorted({n for n in Ns if n >= 40})[:9]
     n = 0
+    found_cases = []
     for N in Ns:
         if ctx.has_violation():
             break
-        n += eval_tg(ctx, exe, gen_tg_case(rng, N, threads=[1, 2, 8, 16], reps=3, closed=(N <= 1200)), stats)
+        found_cases.append(gen_tg_case(rng, N, threads=[1, 2, 8, 16], reps=3, closed=(N <= 1200)))
     for N in [m for m in Ns if m <= 2000][-3:]:
+        found_cases.append(gen_tp_case(rng, max(N, 100), threads=[1, 2, 8, 16], reps=2))
+    for c in found_cases:
         if ctx.has_violation():
             break
-        n += eval_tp(ctx, exe, gen_tp_case(rng, max(N, 100), threads=[1, 2, 8, 16], reps=2), stats)
+        n += eval_cases(ctx, exe, None, [c], stats)
     return n, Ns
 
 
@@ -1529,7 +1722,7 @@ def nontrivial(c):
         return len(c["X"]) >= 3
     if k == "SY":
         return len(c["col"]) >= 3
-    if k in ("GE", "EE"):
+    if k in ("GE", "EE", "GM"):
         return len(c["Y"]) >= 3
     return True
 
@@ -1590,7 +1783,12 @@ def run(ctx):
     errs = [e for e in stats["gb_err"] if None not in e]
     ctx.finish(
         evaluations=n, distinct_nontrivial=len(distinct),
-        rule="cases from corpus + count-driven generators (per tier) for ten harness entry points; exact streams on "
+        rule="wave 2: + GM (computeGradient vs extracted bh_gradient, 1e-9), PR (rows vs extracted perplexity search, 1e-9), "
+             "scaled copies 2^-60..2^60 of the feature data in DD/ZM/PK/PD (same exact / spec checks) and of whole runs (spec "
+             "checks; bit-identical embedding expected and counted, not a verdict), TG/TP (N ~ 1200-1500 under 1/8/16 OpenMP threads: computeGradient vs the quadtree's public "
+             "interface point by point, bit-identical expected, > 1e-9 relative is a violation; K-NN similarities and "
+             "symmetrizeMatrix: bit-identical expected, a differing row/entry is checked against the spec); "
+             "cases from corpus + count-driven generators (per tier) for ten harness entry points; exact streams on "
              "dyadic inputs (DD, ZM, SY, VP with integer distances, PK neighbour sets), tolerance streams (PD/PK row "
              "values 2e-4 vs transliterated loop, entropy 1e-4, GE 1e-9 vs extracted closed form and 1e-5 vs finite "
              "differences of KL, GB thresholds 0.25/0.02/1e-7 for theta 0.5/0.1/1e-6, EE 1e-9, API: centred 1e-9, "
@@ -1604,8 +1802,11 @@ def run(ctx):
                      "exact streams: dyadic coordinates (binary64 arithmetic exact), N a power of two where a mean is taken",
                      "entropy clause checked only on rows where the target is attainable in binary64 (the transliterated "
                      "bisection reaches |H - log perplexity| < 1e-5 within 200 steps; (near-)ties at the nearest distance do not)",
-                     "no coincident samples in the neighbour-set streams (see bh_row_coincident_refuted)"],
-        extra={"traces_validated_against_impl": n})
+                     "no coincident samples in the neighbour-set streams (see bh_row_coincident_refuted)",
+                     "no parallel construct in the t-SNE headers (scanned on every run: %s)" % (
+                         "none found" if not par else "; ".join("%s:%d %s" % (f[0], f[1], f[2]) for f in par))],
+        extra={"traces_validated_against_impl": n, "thread_streams": stats.get("threads"),
+               "scale_twins_compared": stats.get("twins", 0), "scale_twins_differ": stats.get("twins_differ", 0)})
 
 
 def replay(ctx, case):
